@@ -725,6 +725,10 @@ pub fn aggregate(agg: &Aggregator, inputs: &[Row]) -> Result<Vec<Val>, EvalError
             let idx = ((n as f64) * (*p as f64) / 100.0) as usize;
             vec![sorted[idx.min(n - 1)].clone()]
          },
+      Aggregator::MinMax => match (col0().into_iter().min(), col0().into_iter().max()) {
+         (Some(lo), Some(hi)) => vec![Val::Tup(vec![lo.clone(), hi.clone()])],
+         _ => vec![],
+      },
       Aggregator::Top2 => {
          let set: BTreeSet<&Val> = col0().into_iter().collect();
          set.into_iter().rev().take(2).cloned().collect()
